@@ -126,7 +126,7 @@ theorem no_absorbing_state (cfg : Config) (hc : WFCfg cfg) (ops : List Op) (k : 
     exact this.trans h
   obtain ⟨cont, hnf, p, hp⟩ := can_reach_exec ((sys cfg).run ops) (good_always cfg ops) hup
     (by rw [hcfg]; exact hc) k hk
-  refine ⟨cont, hnf, ?_, ?_⟩
+  refine ⟨cont, fun o ho => (hnf o ho).noFault, ?_, ?_⟩
   · have := (finish_ok_removes _ k p hp).1
     simpa [Sys.run, sys, List.foldl_append, stored] using this
   · have := (finish_ok_removes _ k p hp).2
